@@ -240,18 +240,37 @@ def ensure_built(prop_id: str, extra_modules=()) -> ProofStatus:
 # --------------------------------------------------------------------------- driver client
 
 
+_PRIVATE_DRIVER = None
+
+
+def driver_path():
+    """a private copy of the compiled driver, taken once per process: a rebuild running at the same time
+    (another check, another seed) replaces the file under .lake while a long run is still using it"""
+    global _PRIVATE_DRIVER
+    if _PRIVATE_DRIVER and os.path.exists(_PRIVATE_DRIVER):
+        return _PRIVATE_DRIVER
+    if not os.path.exists(DRIVER):
+        raise Infra("driver executable missing: " + DRIVER)
+    import atexit, shutil, tempfile
+    d = tempfile.mkdtemp(prefix="verif-drv-")
+    dst = os.path.join(d, "driver")
+    shutil.copy2(DRIVER, dst)
+    atexit.register(shutil.rmtree, d, True)
+    _PRIVATE_DRIVER = dst
+    return dst
+
+
 class Driver:
     """Batch client: send all request lines, read all reply lines."""
 
     def __init__(self):
-        if not os.path.exists(DRIVER):
-            raise Infra("driver executable missing: " + DRIVER)
+        driver_path()
 
     def batch(self, lines):
         if not lines:
             return []
         data = ("\n".join(lines) + "\n").encode("ascii")
-        p = subprocess.run([DRIVER], input=data, stdout=subprocess.PIPE, stderr=subprocess.PIPE, timeout=3000)
+        p = subprocess.run([driver_path()], input=data, stdout=subprocess.PIPE, stderr=subprocess.PIPE, timeout=3000)
         if p.returncode != 0:
             raise Infra("driver crashed: rc=%s %s" % (p.returncode, p.stderr[-500:]))
         out = p.stdout.decode("ascii").split("\n")
@@ -266,9 +285,7 @@ class LiveDriver:
     """Interactive client (one reply per request, flushed)."""
 
     def __init__(self):
-        if not os.path.exists(DRIVER):
-            raise Infra("driver executable missing: " + DRIVER)
-        self.p = subprocess.Popen([DRIVER, "-i"], stdin=subprocess.PIPE, stdout=subprocess.PIPE)
+        self.p = subprocess.Popen([driver_path(), "-i"], stdin=subprocess.PIPE, stdout=subprocess.PIPE)
 
     def ask(self, line: str) -> str:
         self.p.stdin.write(line.encode("ascii") + b"\n")
